@@ -3,6 +3,7 @@ package rules
 import (
 	"go/token"
 	"go/types"
+	"sort"
 	"strings"
 
 	"golang.org/x/tools/go/ssa"
@@ -58,7 +59,7 @@ func init() {
 	reg("C17.escape", "ORIG", "topic/channel names are query-escaped wherever clusterinfo puts them into an upstream URL", 10, c17escape)
 	reg("C18.escape", "ORIG", "topic/channel names are query-escaped wherever clusterinfo puts them into an upstream URL (shared with C17.escape)", 10, c17escape)
 	reg("C18.whole", "ORIG", "http_api.Client decodes the whole upstream body (no size cap that turns a big, healthy answer into a failed upstream)", 2, c18whole)
-	reg("C19.record", "CALLS+PATH", "a record's body and newline go to the same file: Write cannot rotate, and nothing rotates between the two writes", 2, c19record)
+	reg("C19.record", "CALLS+PATH", "a record's body and newline go to the same file: Write cannot rotate, and nothing rotates between the two writes", 1, c19record)
 	reg("C20.getescape", "ORIG", "nsq_to_http GET mode substitutes the query-escaped message", 1, c20getescape)
 }
 
@@ -606,41 +607,50 @@ func c18whole(c *an.Ctx) {
 // ---- C19.record ------------------------------------------------------------------------------------------------
 
 func c19record(c *an.Ctx) {
-	write := c.Fn("apps/nsq_to_file", "(*FileLogger).Write")
+	we := fileWriteEffect(c)
 	router := c.Fn("apps/nsq_to_file", "(*FileLogger).router")
 	update := c.Fn("apps/nsq_to_file", "(*FileLogger).updateFile")
 	closeF := c.Fn("apps/nsq_to_file", "(*FileLogger).Close")
-	if write == nil || router == nil || update == nil || closeF == nil {
+	if router == nil || update == nil || closeF == nil {
 		return
 	}
-	// (a) Write reaches neither updateFile nor Close
-	seen := map[*ssa.Function]bool{}
-	reaches := false
-	var walk func(f *ssa.Function, d int)
-	walk = func(f *ssa.Function, d int) {
-		if seen[f] || d > 6 {
-			return
+	// (a) no function that writes for the router (FileLogger.Write on the pinned tree) reaches updateFile or Close
+	var wrappers []*ssa.Function
+	for w := range we.fns {
+		if w != router && w != update && w != closeF && len(an.CallsTo(router, w)) > 0 {
+			wrappers = append(wrappers, w)
 		}
-		seen[f] = true
-		an.Instrs(f, func(in ssa.Instruction) {
-			ci, ok := in.(ssa.CallInstruction)
-			if !ok {
-				return
-			}
-			g := an.StaticCallee(ci)
-			if g == nil || g.Pkg != write.Pkg {
-				return
-			}
-			if g == update || g == closeF {
-				reaches = true
-			}
-			walk(g, d+1)
-		})
 	}
-	walk(write, 0)
-	c.Check(!reaches, write, "Write never rotates", write.Pos(), "", "FileLogger.Write can rotate or close the file: it is called once for the body and once for the newline, so a rotation triggered by the second call leaves the old file ending in an unterminated record and starts the next file with an empty one")
+	sort.Slice(wrappers, func(i, j int) bool { return wrappers[i].Name() < wrappers[j].Name() })
+	for _, write := range wrappers {
+		seen := map[*ssa.Function]bool{}
+		reaches := false
+		var walk func(f *ssa.Function, d int)
+		walk = func(f *ssa.Function, d int) {
+			if seen[f] || d > 6 {
+				return
+			}
+			seen[f] = true
+			an.Instrs(f, func(in ssa.Instruction) {
+				ci, ok := in.(ssa.CallInstruction)
+				if !ok {
+					return
+				}
+				g := an.StaticCallee(ci)
+				if g == nil || g.Pkg != write.Pkg {
+					return
+				}
+				if g == update || g == closeF {
+					reaches = true
+				}
+				walk(g, d+1)
+			})
+		}
+		walk(write, 0)
+		c.Check(!reaches, write, "Write never rotates", write.Pos(), "", "FileLogger."+write.Name()+" can rotate or close the file: it is called once for the body and once for the newline, so a rotation triggered by the second call leaves the old file ending in an unterminated record and starts the next file with an empty one")
+	}
 	// (b) in the router nothing rotates between a body write and the newline write that follows it
-	writes := an.CallsTo(router, write)
+	writes := we.callsIn(router)
 	if len(writes) < 2 {
 		c.Und(router, "body and newline written back to back", router.Pos(), "expected a body write and a newline write in the router")
 		return
